@@ -38,6 +38,111 @@ P('C12',
   not_decided=['gf_vect_mul_{sse,avx} and GFNI kernels that consume the tables (assembly)'])
 
 
+TECH = 'CBMC 6.11 code contracts (goto-instrument --dfcc: enforce/replace, loop contracts) on the real C sources spliced mechanically; native replay of counterexamples'
+
+P('C04', design_ref='7/C04', technique=TECH + '; ghost fold array for the CRC recurrence',
+  level_text='Proof, unbounded length: each portable table-driven CRC (crc16_t10dif(+copy), crc32_ieee, crc32_gzip_refl, crc32_iscsi, eight crc64 variants) returns fin(S[len]) where S[0]=init(seed) and '
+             'S[i+1] is the bit-by-bit LFSR step of the published polynomial - i.e. every table entry, shift direction, index expression and the seed/final-xor convention are checked for all states, bytes and lengths; '
+             'frames are empty (copy form: exactly dst[0..len), dst[g]==src[g]). Adler-32: memory safety, overflow freedom and frame unbounded; functional equality bounded (see evidence). Composition lemmas over the contracts.',
+  level_note='Trusted: CBMC+MiniSat, splice step, spec step functions (anchored by published check values in setup), ghost fold axioms. Not decided: every assembly variant (by4/by8/by16, adler32_sse/avx2) and the dispatchers.',
+  assumptions=['the per-iteration ghost axiom S[i+1]==spec_step(S[i],buf[i]) defines the reference sequence; composition over pieces follows from the contract shape by induction on the pieces (not mechanised beyond the stated lemmas)'],
+  not_decided=['all *_by4/_by8/_by16_10/_01/_02 assembly, adler32_sse/avx2, folding constants, dispatcher choice'])
+
+P('C19', design_ref='7/C19', technique=TECH,
+  level_text='Proof per call: isal_write_zlib_header / isal_write_gzip_header emit exactly the RFC 1950 / RFC 1952 byte layout (byte order, FCHECK, CRC16 placement) or return the required size leaving the stream untouched; '
+             'header readers and their resumable helpers return only documented codes on arbitrary bytes, stay inside the declared buffers and decode fields in RFC byte order. The many-call resume induction is stated, not mechanised.',
+  level_note='Trusted: CBMC+MiniSat, splice step; ASSUMED contracts for strnlen (no CBMC model) and the dispatched crc32_gzip_refl used for the header CRC16. Not decided: induction over arbitrary call histories.',
+  assumptions=['crc32_gzip_refl (dispatched assembly) and strnlen are used through assumed contracts'],
+  not_decided=['the induction over call histories for resumed reads'])
+
+P('C20', design_ref='7/C20', technique=TECH + '; ghost byte position',
+  level_text='Proof for every length and every byte position (portable variant): mem_zero_detect_base returns 0 only if every byte is zero (ghost position), returns 0 when all bytes are zero, reads exactly [buf,buf+n), writes nothing; word loop closed by a loop invariant with decreases clause.',
+  level_note='Trusted: CBMC+MiniSat, splice step. Not decided: mem_zero_detect_{sse,avx,avx2,avx512} and the dispatcher (assembly); alignment is not modelled.',
+  assumptions=[], not_decided=['assembly variants and dispatcher'])
+
+P('C08', design_ref='7/C08', technique=TECH + '; ghost byte position, ghost XOR/Horner folds',
+  level_text='Proof for every length (portable variants): xor_gen_base writes P = XOR of sources, pq_gen_base additionally Q = sum 2^i*D_i over GF(2^8)/0x11D (SWAR multiply-by-2 proved equal to the bytewise definition for all 2^64 words), only the parity buffers are written; '
+             'xor_check_base / pq_check_base return 0 exactly for consistent arrays at every ghost position; argument combinations below the documented minimum return non-zero with empty frame. vects bounded by the harness-built pointer array (parameter-bounded).',
+  level_note='Trusted: CBMC+MiniSat, splice step, spec_gf. Not decided: assembly generators/checkers; the algebraic fact that P,Q allow rebuilding any two lost blocks.',
+  assumptions=['number of vectors limited to the size of the harness-built pointer array (stated in bounds)'],
+  not_decided=['xor/pq *_sse/avx/avx2/avx512 variants', 'two-erasure recoverability (algebra over the proved definitions)'])
+
+P('C03', design_ref='7/C03', technique=TECH + '; ghost (row,byte) index, ghost XOR fold; assumed contracts for NASM kernels',
+  level_text='Proof for every block length and table content: gf_vect_dot_prod_base / ec_encode_data_base write into each output block exactly the GF(2^8) combination of the sources, only the output blocks are written; '
+             'the C row-batching glue ec_encode_data_{sse,avx,avx2,avx512,avx512_gfni,avx2_gfni} hands every row to exactly one kernel call with the right destination and table pointer (kernels assumed). k/rows bounded by harness-built pointer arrays.',
+  level_note='Trusted: CBMC+MiniSat, splice step, spec_gf; ASSUMED contracts of all gf_Nvect_dot_prod_<isa> kernels. Not decided: kernel bodies, alignment effects, dispatcher.',
+  assumptions=['assembly kernels used through assumed contracts equal to the statement proved for the portable twin'],
+  not_decided=['every dot-product kernel body', 'ec_multibinary dispatch'])
+
+P('C13', design_ref='7/C13', technique=TECH,
+  level_text='Proof for every length: gf_vect_mad_base / ec_encode_data_update_base add exactly coefficient*source to each parity byte and touch only parity blocks; gf_vect_mul_base rejects len%32!=0 without writing and otherwise writes c*src; '
+             'lemmas: update twice cancels, updates commute; glue ec_encode_data_update_* dispatches every row exactly once (kernels assumed).',
+  level_note='Trusted: as C03; ASSUMED contracts of gf_Nvect_mad_<isa>. Not decided: mad/mul kernels, induction "all k updates = full encode" (stated).',
+  assumptions=['assembly mad kernels through assumed contracts'], not_decided=['mad/mul kernels', 'induction over k updates'])
+
+P('C09', design_ref='7/C09', technique=TECH + '; bounded unwinding for inversion correctness',
+  level_text='Proof: gf_gen_cauchy1_matrix / gf_gen_rs_matrix produce identity top block and the documented coefficient formulas for all m,k in range; gf_invert_matrix memory safety, frame and termination for all n<=128. '
+             'Inversion correctness (in*out==I, -1 iff singular) is a BOUNDED stand-in for small n (listed separately, never counted as proof).',
+  level_note='Trusted: CBMC+MiniSat, spec_gf, proved gf_mul/gf_inv contracts. Not decided: Cauchy-determinant theorem (every k rows invertible), safe (m,k) table of the Vandermonde generator.',
+  assumptions=['Cauchy determinant theorem and the documented safe (m,k) list are mathematical facts outside any code contract'],
+  not_decided=['invertibility of every k-subset', 'inversion correctness beyond the stated n'])
+
+P('C11', design_ref='7/C11', technique=TECH,
+  level_text='Proof per call: write_trailer emits LE32(crc)||LE32(total_in) (gzip) / BE32 Adler-32 (zlib) after the flushed final bits and only then enters the end state; check_gzip_checksum / check_zlib_checksum accept exactly when the logical trailer bytes equal the running checksum (and length), for every split of the trailer across bit buffer, tmp buffer and input.',
+  level_note='Trusted: CBMC+MiniSat; ASSUMED contracts for the dispatched crc32_gzip_refl / isal_adler32 (their portable twins are proved under C04). Not decided: that the running checksum covers exactly the produced bytes across the whole isal_inflate/isal_deflate state machines.',
+  assumptions=['checksum kernels via assumed contracts'], not_decided=['whole-pipeline checksum accumulation'])
+
+P('C10', design_ref='7/C10', technique=TECH,
+  level_text='Proof for the stored path and parameter checks: write_stored_block / write_type0_header exact layout and counters, never beyond avail_out; check_level_req rejects invalid level / level_buf before any write; stateless stored-size bound with the compression kernel under an assumed contract.',
+  level_note='Trusted: CBMC+MiniSat; ASSUMED contract for isal_deflate_int_stateless / body kernels. Not decided: streaming termination over call histories (liveness), assembly bodies.',
+  assumptions=['compression kernels via assumed contracts'], not_decided=['termination of streaming for any output chunking'])
+
+P('C14', design_ref='7/C14', technique=TECH,
+  level_text='Proof per call: sync_flush emits 3 header bits, zero padding to a byte boundary and 00 00 FF FF, leaves the bit buffer empty, resets history iff FULL_FLUSH, and changes nothing when avail_out<8.',
+  level_note='Trusted: CBMC+MiniSat; wmemset stub. Not decided: "no later match refers before a full flush" across kernels.',
+  assumptions=[], not_decided=['cross-call history invariant', 'assembly bodies'])
+
+P('C17', design_ref='7/C17', technique=TECH,
+  level_text='Proof, full domain: distance/length symbol maps agree with RFC 1951 for all 1<=dist<=32768; window mask from hist_bits; dictionary set/reset state guards and last-window copy; match emission sites keep dist within the mask for one arbitrary iteration.',
+  level_note='Trusted: CBMC+MiniSat. Not decided: dictionary round trip, assembly bodies.',
+  assumptions=[], not_decided=['round trip with dictionaries', 'assembly match finders'])
+
+P('C18', design_ref='7/C18', technique=TECH + '; bounded stand-ins for canonical-code assignment',
+  level_text='Proof: length/distance symbol conversion vs RFC (full domain), are_hufftables_useable bound, run-length encoding validity, set_hufftables state guard; bounded: canonical code assignment on small alphabets.',
+  level_note='Trusted: CBMC+MiniSat. build_huff_tree is assembly on x86 (assumed). Not decided: isal_create_hufftables end to end.',
+  assumptions=[], not_decided=['isal_create_hufftables end to end', 'decoder parses header to the same codes'])
+
+P('C01', design_ref='7/C01', technique=TECH,
+  level_text='Component contracts only: bit writer, match comparison, symbol maps, ICF packing and encoding loop, stored fallback, trailer, flush marker, headers. The end-to-end lossless statement is NOT decided.',
+  level_note='Trusted: CBMC+MiniSat. Not decided: LZ77 body/finish kernels (assembly), whole-pipeline induction.',
+  assumptions=[], not_decided=['end-to-end round trip', 'assembly kernels'])
+
+P('C02', design_ref='7/C02', technique=TECH,
+  level_text='Component contracts only: bit reader, stored blocks, literal-block copy, overlapping copy, canonical code assignment, final input position. The end-to-end statement is NOT decided.',
+  level_note='Trusted: CBMC+MiniSat. Not decided: lookup-table construction, decode loop functional correctness, asm decode kernels.',
+  assumptions=[], not_decided=['make_inflate_huff_code_*', 'decode loop functional correctness'])
+
+P('C06', design_ref='7/C06', technique=TECH,
+  level_text='Component contracts over arbitrary bytes: reserved block type, LEN/NLEN mismatch, over-subscribed code sets rejected; header readers / checksum checkers return only documented codes and stay in bounds.',
+  level_note='Trusted: CBMC+MiniSat. Not decided: whole-decoder never-false-success, progress across calls, asm kernels.',
+  assumptions=[], not_decided=['whole decoder', 'asm kernels'])
+
+P('C07', design_ref='7/C07', technique=TECH,
+  level_text='Per-call progress contracts of the resumable helpers (header writers/readers, stored blocks, checksum checks): one call emits/consumes exactly the next min(remaining, space) bytes for any split. The induction over call histories is stated, not mechanised.',
+  level_note='Trusted: CBMC+MiniSat. Not decided: equality of streaming and one-shot results as wholes.',
+  assumptions=[], not_decided=['induction over call histories'])
+
+P('C05', design_ref='7/C05', technique=TECH + '; exact-size is_fresh buffers, frame clauses',
+  level_text='Memory safety of every function under contract: each harness gives the function exactly the bytes its arguments declare (is_fresh of exactly len bytes), so one byte read or written outside is a failed pointer/bounds/assigns obligation, for every length including 0.',
+  level_note='Trusted: CBMC memory model (no alignment, object-granular). Not decided: assembly kernels, isal_deflate/isal_inflate as wholes, guard-page placement.',
+  assumptions=[], not_decided=['assembly kernels', 'whole streaming entry points'])
+
+P('C15', design_ref='7/C15', technique=TECH + '; frame (assigns) clauses, init/reset field contracts',
+  level_text='Every enforced contract has an explicit frame naming only caller-owned objects, so a write to any library global is a failed assigns obligation; init/reset functions have field-by-field postconditions.',
+  level_note='Trusted: CBMC. Not decided: thread interleavings, racing first calls through the assembly dispatchers.',
+  assumptions=['sequential semantics'], not_decided=['thread interleavings', 'dispatcher cold start'])
+
+
 def merged(pid):
     """PROPS[pid] plus the per-family fragments (assumptions / not_decided lists are concatenated)"""
     import registry
@@ -125,3 +230,7 @@ SOURCE_COMMITS = []  # no guarded hook commits; /repo carries only the two ungua
 NOT_APPLICABLE = {
     'C16': 'the resolvers (mbin_dispatch_init*, hand-written CRC/RAID resolvers) and every selectable kernel are NASM; CBMC has no front end for them, a C transcription would be a model (different family), and no C contract can express CPUID/XGETBV behaviour',
 }
+
+# properties whose checks are complete enough to be registered in MANIFEST.json (maintained by hand:
+# a property is added only after ./check <ID> exits 0 on the unchanged tree inside its time budget)
+CLAIMED = ['C12', 'C04', 'C19']
